@@ -156,10 +156,14 @@ def H3Cache.afterRoundTrip (c : H3Cache) (callFailed canceled : Bool) : H3Cache 
 /-- The connection was closed (CONNECTION_CLOSE from the peer, a connection error). -/
 def H3Cache.connClosed (c : H3Cache) : H3Cache := { c with closed := true }
 
+def H3Outcome.isCallFailed : H3Outcome → Bool
+  | .callFailed => true
+  | _ => false
+
 /-- Dials after the first request (ending `e`, outcome `o`) and one more request. -/
 def h3DialsAfterSecond (e : H3End) (o : H3Outcome) : Nat :=
   let c := H3Cache.empty.getClient
-  let c := c.afterRoundTrip (o == .callFailed) false
+  let c := c.afterRoundTrip o.isCallFailed false
   let c := match e with | .connClose _ => c.connClosed | _ => c
   c.getClient.dials
 
